@@ -14,13 +14,16 @@
    stuttering step (xr = 1, counted as extra_reads): reordering or adding reads is a legal refactoring; if such
    a read is failed by injection the model cannot follow the error path: it stops predicting for that actor
    (no drift) and the verdict is left to the property predicates.
+   A departure at a WRITE (or at a mutex operation) also stops the prediction for that actor; it counts as drift only
+   if the store at the end of the actor's run is none of the stores the model allows from the departure point
+   (and the driver reports drift only for scenarios in which no property predicate fails).
    One initial state per Scenario line; handlers are total. *)
 EXTENDS Binder, Json
 
 Trace == ndJsonDeserialize("trace.ndjson")
 
-VARIABLES l, l0, drift, xr
-tvars == <<vars, l, l0, drift, xr>>
+VARIABLES l, l0, drift, xr, alt
+tvars == <<vars, l, l0, drift, xr, alt>>
 
 Starts == {i \in 1..Len(Trace) : Trace[i].ev = "Scenario"}
 Ev == Trace[l]
@@ -38,6 +41,7 @@ TraceInit ==
     /\ hist = <<>>
     /\ drift = IF Trace[i].st = InitStore(Trace[i].cfg) THEN <<>> ELSE << <<0, "init">> >>
     /\ xr = 0
+    /\ alt = [a \in Actors |-> {}]
 
 OthersIdle(a) == \A b \in Actors \ {a} : L[b].t = "idle"
 
@@ -65,40 +69,50 @@ TraceStart ==
                      /\ ctl' = c1
   /\ S' = Ev.st
   /\ l' = l + 1
-  /\ xr' = 0
+  /\ xr' = 0 /\ alt' = alt
   /\ UNCHANGED <<cfg, mutex, hist, l0>>
 
 Match(lab) ==
   IF Ev.ev = "Lock" THEN lab.n = "lock" /\ lab.g = Ev.g
+  ELSE IF Ev.ev = "Wait" THEN lab.n = "wait" /\ lab.g = Ev.g
   ELSE lab.n = "call" /\ lab.verb = Ev.verb /\ lab.kind = Ev.kind /\ lab.g = Ev.g /\ lab.pt = Ev.pt /\ lab.res = Ev.res
 
-\* a client call or a mutex acquisition of actor a
+\* stores in which the model lets actor a end when it runs on alone and fault-free from (St, lc, m)
+RECURSIVE Ends(_, _, _, _)
+Ends(a, St, lc, m) ==
+  IF lc.t = "idle" THEN {St}
+  ELSE UNION {Ends(a, r.S, r.L, r.M) : r \in {r \in SuccOf(a, St, lc, m) : r.lab.res = "ok" /\ r.lab.n # "wait"}}
+
+\* a client call, a mutex acquisition or the start of waiting for a mutex of actor a
 TraceStep ==
-  /\ (Is("Call") \/ Is("Lock"))
+  /\ (Is("Call") \/ Is("Lock") \/ Is("Wait"))
   /\ LET a == Ev.a
          C == IF a \in Actors THEN {r \in Succ(a) : Match(r.lab)} ELSE {}
          crash == Ev.ev = "Call" /\ Ev.res = "crash"
-         lab == IF Ev.ev = "Lock"
-                THEN [n |-> "lock", a |-> a, verb |-> "", kind |-> "", g |-> Ev.g, pt |-> "", res |-> "ok", k |-> 0, pc |-> "", gi |-> 0]
+         lab == IF Ev.ev \in {"Lock", "Wait"}
+                THEN [n |-> IF Ev.ev = "Lock" THEN "lock" ELSE "wait", a |-> a, verb |-> "", kind |-> "", g |-> Ev.g, pt |-> "", res |-> "ok", k |-> 0, pc |-> "", gi |-> 0]
                 ELSE [n |-> "call", a |-> a, verb |-> Ev.verb, kind |-> Ev.kind, g |-> Ev.g, pt |-> Ev.pt, res |-> Ev.res, k |-> Ev.k, pc |-> "", gi |-> 0]
      IN /\ a \in Actors
         /\ ctl' = ObserveCall(ctl, L[a], lab)
         /\ IF C = {}
-           THEN LET xread == Ev.ev = "Call" /\ Ev.verb \in {"get", "list"} /\ L[a].pc # "lost"
+           THEN LET xread == Ev.ev = "Call" /\ Ev.verb \in {"get", "list"} /\ L[a].pc \notin {"lost", "wlost"}
+                    gone == L[a].pc \in {"lost", "wlost"}
                 IN /\ L' = IF crash THEN [b \in Actors |-> L0]
                            ELSE IF xread /\ Ev.res = "ok" THEN L          \* stutter: the model waits at its own next call
-                           ELSE [L EXCEPT ![a].pc = "lost"]
+                           ELSE IF gone \/ xread THEN [L EXCEPT ![a].pc = IF gone THEN L[a].pc ELSE "lost"]
+                           ELSE [L EXCEPT ![a].pc = "wlost"]              \* departure at a write / lock: stop predicting
                    /\ mutex' = IF crash THEN M0 ELSE mutex
                    /\ xr' = IF xread THEN 1 ELSE 0
-                   /\ drift' = IF L[a].pc = "lost" THEN drift
-                               ELSE IF xread THEN (IF Ev.st = S THEN drift ELSE Note(<<"read-wrote", L[a].pc>>))
-                               ELSE Note(<<"nomatch", L[a].pc>>)
+                   \* the outcomes the model allows for the rest of this actor's run (judged at its End)
+                   /\ alt' = IF ~gone /\ ~xread /\ ~crash THEN [alt EXCEPT ![a] = Ends(a, S, L[a], mutex)] ELSE alt
+                   /\ drift' = IF xread /\ Ev.st # S THEN Note(<<"read-wrote", L[a].pc>>) ELSE drift
            ELSE \E r \in C :
                   /\ L' = IF crash THEN [b \in Actors |-> L0]
                           ELSE [L EXCEPT ![a] = IF r.L.t = "idle" THEN [L[a] EXCEPT !.pc = "ended"] ELSE r.L]
                   /\ mutex' = IF crash THEN M0 ELSE r.M
                   /\ drift' = IF r.S = Ev.st THEN drift ELSE Note(<<"store", L[a].pc>>)
                   /\ xr' = 0
+                  /\ alt' = alt
   /\ S' = Ev.st
   /\ l' = l + 1
   /\ UNCHANGED <<cfg, hist, l0>>
@@ -111,10 +125,12 @@ TraceEnd ==
         /\ L' = [L EXCEPT ![a] = L0]
         /\ mutex' = [g \in Groups |-> IF mutex[g] = a THEN 0 ELSE mutex[g]]
         /\ drift' = IF L[a].pc = "ended" /\ Ev.st = S /\ (\A g \in Groups : mutex[g] # a) THEN drift
-                    ELSE IF L[a].pc = "lost" THEN drift ELSE Note(<<"end", L[a].pc>>)
+                    ELSE IF L[a].pc = "lost" THEN drift
+                    ELSE IF L[a].pc = "wlost" THEN (IF Ev.st \in alt[a] THEN drift ELSE Note(<<"departed-at-write", Cardinality(alt[a])>>))
+                    ELSE Note(<<"end", L[a].pc>>)
   /\ S' = Ev.st
   /\ l' = l + 1
-  /\ xr' = 0
+  /\ xr' = 0 /\ alt' = [alt EXCEPT ![Ev.a] = {}]
   /\ UNCHANGED <<cfg, hist, l0>>
 
 TraceEnv ==
@@ -123,12 +139,13 @@ TraceEnv ==
                    [] Ev.e = "Annotate" -> IF S.res[Ev.g].n > 0 /\ S.res[Ev.g].idx < 0
                                            THEN [S EXCEPT !.res[Ev.g].idx = S.nidx, !.nidx = S.nidx + 1] ELSE S
                    [] OTHER -> S
-     IN drift' = IF pred = Ev.st THEN drift ELSE Note(<<"env", Ev.e>>)
-  /\ IF Ev.e = "Restart" THEN L' = [a \in Actors |-> L0] /\ mutex' = M0 ELSE UNCHANGED <<L, mutex>>
+     \* Stuck: every unfinished actor was blocked for good in a group mutex (the harness abandoned the process)
+     IN drift' = IF Ev.e = "Stuck" THEN Note("stuck-in-mutex") ELSE IF pred = Ev.st THEN drift ELSE Note(<<"env", Ev.e>>)
+  /\ IF Ev.e \in {"Restart", "Stuck"} THEN L' = [a \in Actors |-> L0] /\ mutex' = M0 ELSE UNCHANGED <<L, mutex>>
   /\ ctl' = [ctl EXCEPT !.check = 0, !.final = 0, !.evgroups = {}]
   /\ S' = Ev.st
   /\ l' = l + 1
-  /\ xr' = 0
+  /\ xr' = 0 /\ alt' = alt
   /\ UNCHANGED <<cfg, hist, l0>>
 
 \* markers written by the harness: Check (no-op, the check-point flag comes from the End of a sync), Final
@@ -138,15 +155,15 @@ TraceMark ==
   /\ ctl' = IF Ev.ev = "Final" THEN [ctl EXCEPT !.final = 1] ELSE ctl
   /\ S' = Ev.st
   /\ l' = l + 1
-  /\ xr' = 0
+  /\ xr' = 0 /\ alt' = alt
   /\ UNCHANGED <<cfg, L, mutex, hist, l0>>
 
 TraceNext == TraceStart \/ TraceStep \/ TraceEnd \/ TraceEnv \/ TraceMark
 TraceSpec == TraceInit /\ [][TraceNext]_tvars
 
 (* ---- export of schedules from the model: fault schedules (c11), histories (c17 simulation) ---- *)
-GenInit == Init /\ l = 0 /\ l0 = 0 /\ drift = <<>> /\ xr = 0
-GenNext == Next /\ UNCHANGED <<l, l0, drift, xr>>
+GenInit == Init /\ l = 0 /\ l0 = 0 /\ drift = <<>> /\ xr = 0 /\ alt = <<>>
+GenNext == Next /\ UNCHANGED <<l, l0, drift, xr, alt>>
 Emit11 == (ctl.phase = "done") => PrintT("SCHED " \o ToJson([cfg |-> cfg, faults |-> hist, k1 |-> ctl.k1, nrec |-> ctl.nrec]))
 \* c17 (simulation): print the history of a behaviour when nothing is left to do
 Emit17 == (~ENABLED GenNext) => PrintT("HIST " \o ToJson([cfg |-> cfg, steps |-> hist]))
@@ -154,5 +171,5 @@ Emit17 == (~ENABLED GenNext) => PrintT("HIST " \o ToJson([cfg |-> cfg, steps |->
 \* drift monitors (never a violation)
 D_NoDrift == drift = <<>>
 D_Known == (l <= Len(Trace) /\ Trace[l].ev # "Scenario") =>
-             Trace[l].ev \in {"Start", "Call", "Lock", "End", "Env", "Check", "Final"}
+             Trace[l].ev \in {"Start", "Call", "Lock", "Wait", "End", "Env", "Check", "Final"}
 =============================================================================
